@@ -9,7 +9,7 @@ PNET = 'pnet 0.33 accessors/constructors/checksum routines are assumed contracts
 CLAIMS = {
  'C01': dict(
    text='Verus proves, for every function under contract on the reply() path from masscanned::reply down to tcp::repl/udp::repl/icmp*::repl/arp::repl (bodies extracted verbatim), absence of panics: every index, slice, arithmetic operation, unwrap/expect and callee precondition (incl. pnet set_payload bounds and Debug-formatting obligations of log arguments, evaluated at every verbosity) and termination of every loop, for all frames <= 4096 bytes and all table states satisfying the representation invariant, which every function preserves. Ground: both automaton initialisers run to completion on the real binary.',
-   note='STAGED: proto::repl and the smack matcher are under contract; HTTP, SSH, STUN, DNS, Gh0st and RPC responders are under contract (two string-building RPC helpers assumed); SMB is still an assumed contract (trusted stub, listed in the evidence). Loggers (console/logfmt) are represented by the MetaLogger shim. ' + PNET),
+   note='proto::repl, the smack matcher and the HTTP, SSH, STUN, DNS, Gh0st, RPC and SMB responders are under contract (two string-building RPC helpers and two closures of smb.rs lifted into helpers with assumed contracts; the wall clock is assumed to lie between 1970 and 2^40 s). Loggers (console/logfmt) are represented by the MetaLogger shim. ' + PNET),
  'C02': dict(
    text='Postconditions of layer_2::reply, get_authorized_eth_addr (loop invariant over the self-IP set), arp::repl, ipv4::repl, ipv6::repl, icmpv6::repl/nd_ns_repl: a reply exists only if dst MAC is in Auth(MAC,S), src IP not denied, EtherType/next protocol supported; with S configured the reply source IP and every advertised address is in S. Composed to the frame level in eth_reply_ok (masscanned::reply).',
    note=PNET + '; HashSet<IpAddr>/HashSet<MacAddr> obey the vstd key model (assumed)'),
@@ -42,7 +42,7 @@ CLAIMS = {
    note='KNOWN FINDING: bytes that arrive before identification completes are never shown to the HTTP/RPC parser, so a cut inside the signature changes the outcome; the concatenation lemma for http_run itself (method phase + per-byte phase) is not yet a proved lemma; rpc_parse decoding is an invariant, not an equality with a fold'),
  'C12': dict(
    text='Per-protocol clauses proved so far: ARP op != 1, ICMP type != 8, ICMPv6 type not in {128,135} or code != 0, TCP flags == SYN|ACK or RST or bare ACK => no reply (iff postconditions of the responders).',
-   note='STUN class != Request => no STUN response, DNS QR=1 => no DNS response are proved; PARTIAL: SMB reply flag, RPC reply and the reflection-chain bound are not yet under contract'),
+   note='STUN class != Request => no STUN response, DNS QR=1 => no DNS response are proved; SMB1 flag 0x80 / SMB2 flag bit 0 set => no SMB response is proved (C17 contracts); PARTIAL: RPC reply and the reflection-chain bound are not yet under contract'),
  'C13': dict(
    text='http_parse is proved memory-safe and terminating (lexicographic measure; the `i -= 1` after the method matcher is safe because every match row of the compiled HTTP automaton reports exactly one id -- ground fact) and EQUAL to the reference parser http_run (method automaton = run of the compiled table; request line and header automaton byte by byte, written from RFC 2616 5.1 with relaxed line ends); http::repl answers iff that parser, started from the flow state (TCP) or fresh (UDP), ends in CONTENT, so FAIL is absorbing and nothing is sent before the empty line. The response is proved to be P0 ++ date ++ P1 ++ dec(|content|) ++ P2 ++ content ++ P3 with the literal pieces taken from the format! template in the source; lemma_http_template evaluates on those pieces: starts "HTTP/1.1 401", P1 ends "Content-Length: ", P2 contains "\\nWWW-Authenticate: " and ends with the first empty line, P3 is empty (Content-Length == body bytes).',
    note='the nine methods are recognised by the compiled HTTP_SMACK table (ground: wf, one id per row); grammar-level lemmas (which request lines reach CONTENT) are not yet proved, so "malformed request line => silence" is claimed only through FAIL-absorption of the reference automaton; chrono date string assumed LF-free and <= 64 bytes; Display of usize = dec(n); byte2str trusted'),
@@ -55,12 +55,15 @@ CLAIMS = {
  'C16': dict(
    text='rpc_parse (read_u32/read_string state machine) is proved panic-free for every byte sequence under the representation invariant rpc_state_wf (field in progress < 256^bytes read, counted strings only entered with a positive count), which makes value*256+byte and data_len-1 safe in debug and release arithmetic; get_nth_byte/push_u32 equal the big-endian byte specs; build_repl is proved to return xid ++ reply/accepted/null-verifier header and then, in the stated precedence, PROG_MISMATCH(2,4) for versions outside 2..4, SUCCESS for procedure 0, the portmapper body for program 100000, PROG_UNAVAIL otherwise, 4-byte aligned; repl_tcp prefixes a record mark with the last-fragment bit and a length equal to the bytes that follow; the two panic!("Wrong RPC version") are unreachable (callee precondition 2 <= version <= 4).',
    note='build_repl_portmap and push_string_pad (String/format!/str matching) are ASSUMED contracts: the clauses "GETPORT/GETADDR/DUMP advertise exactly the contacted IP, port and netid" and XDR string padding are not verified; field decoding of rpc_parse is stated as an invariant, not yet as equality with the big-endian words of the stream'),
+ 'C17': dict(
+   text='Every dissector of smb.rs (NBTSession<T>, SMB1/SMB2 header, Negotiate, Session-Setup, payload enums) carries four ghost members declared on the MPacket trait: inv (representation invariant: counters in range, partially read little-endian fields < 256^i, unread fields 0), count (bound on the byte counters, so `i += 1` cannot overflow), tracks(s) ("the fields are what the request bytes s say", little-endian accumulation per dissector.rs read_ule16/32/64) and answers(s, r) (the response relation written from the statement). parse is proved to preserve inv and to turn tracks(s) into tracks(s.push(byte)) for every byte and state; repl is proved to return only r with answers(s, r). Composed in repl_smb1/repl_smb2 (loop invariant over the payload): a reply r to the payload s satisfies: NetBIOS type 0 and 24-bit length == |r|-4; SMB1: magic, command == s.command, status 0, flag 0x80 set, PIDHigh/TID/PIDLow/UID/MID bytes == the request bytes, request flag 0x80 clear and command in {0x72,0x73}; Negotiate: WordCount 17, ChallengeLength 0, ByteCount == bytes that follow (GUID + blob), blob present at the end, DialectIndex < number of dialects parsed; Session-Setup: WordCount 4, SecurityBlobLength == |blob| at offset 11, ByteCount == bytes that follow; SMB2: magic, StructureSize 64, status 0, command echoed, response flag set, MessageId/AsyncId/SessionId bytes == request bytes, request flag bit 0 clear and command in {0,1}; Negotiate: StructureSize 65, DialectRevision is a supported dialect that occurs in the request\'s dialect array (so no reply if none is supported), client GUID echoed, SecurityBufferOffset 0x80 == 64+64 where the blob starts, SecurityBufferLength == |blob|; Session-Setup: StructureSize 9, offset 0x48 == 64+8, length == |blob|, blob ends the message.',
+   note='the two closures (`.iter().position(|x| ..)`, `.iter().find(|(d,_)| ..)`) are lifted verbatim into helpers with ASSUMED contracts (index in range / element satisfies the predicate); the `for dialect in [..]` loop with `continue` is desugared mechanically into an indexed while (rule R28); SystemTime is a shim (clock in [1970, 2^40 s)); SMB1 DialectIndex is proved to index a parsed dialect but the parsed dialect list is not tied back to the request bytes (String contents are not modelled); a request whose dialect list contains duplicates, or whose DialectCount is 0, is never answered (HashSet length never reaches the count): observed, not part of the statement as formalised (reply-conditional)'),
  'C18': dict(
    text='ssh_parse is proved (loop invariant, lexicographic termination measure for the re-read in state LF) to compute exactly the reference automaton ssh_run written from RFC 4253 4.2; ssh::repl answers iff that automaton ends in EOB and then with exactly "SSH-2.0-1\\r\\n". Lemmas over ssh_run: every string "SSH-" (digit|.)* "-" software [SP comment] CR LF (software without SP/CR, comment without CR) is accepted; strings without a CR LF pair or not starting "SSH-" are never accepted; run(a++b) = run(run(a), b). ghost::repl is proved to return "Gh0st" ++ le32(total length) ++ le32(1) ++ zlib([0]) with the declared total equal to the frame length.',
    note='gray zone left unconstrained (empty software, lone CR inside software/comment, which the code tolerates); that the leading bytes are SSH-2.0/SSH-1.99 is the dispatcher\'s part (C10); flate2 is an assumed contract (output inflates to the input; length bound); byte2str (log rendering) trusted'),
  'C19': dict(
    text='(a) functional postconditions: ssh::repl, ghost::repl, http::repl, the matcher/dispatch clauses of proto::repl are proved to be functions of the payload (and per-flow parser state / clock) only; stun::repl places exactly (source IP, source port) in MAPPED-ADDRESS, DNS answers place exactly the destination IPv4 address in RDATA. (b) type-level frame: unit u_frame re-verifies ssh, ghost and http responders against an OPAQUE ClientInfo (no readable field), so any read of a port, address or transport in these responders is a named obligation that fails; L4 hands the payload up unconditionally (udp::repl, tcp::repl).',
-   note='SMB responders are not covered (assumed contracts); portmapper address/port placement rests on the assumed build_repl_portmap contract; proto::repl reads client_info.transport/cookie only for the TCP-without-cookie guard (visible in its contract)'),
+   note='SMB responders are proved to answer as a relation between request bytes and reply bytes only (answers(s, r) never mentions ClientInfo) but are not in the opaque-type unit; portmapper address/port placement rests on the assumed build_repl_portmap contract; proto::repl reads client_info.transport/cookie only for the TCP-without-cookie guard (visible in its contract)'),
  'C20': dict(
    text='Ghost event log threaded through every layer function (World parameter): each appends a well-nested account recv . inner . (send|drop) of its own layer, terminal verb send iff it returns a reply, logged packet bytes are the request / the reply; proved per function and composed up to masscanned::reply.',
    note='MetaLogger is a shim (assumed to forward each event once); console/logfmt line syntax not yet under contract'),
